@@ -28,7 +28,7 @@ REQUIRED = {"kind:has-antiparticle": 300, "kind:self-conjugate": 50, "kind:in-ta
 EXHAUSTIVE_NOTE = "every EvtGen name and every PDG name of the installed tables is visited by every worker subset union (sharded), both cache states"
 ASSUMPTIONS = ["the csv data tables of the installed particle package are the ground truth for IDs, names and self-conjugacy"]
 
-UNKNOWN = ["Foo", "X_1(3872)x", "my~part", "a/b", "q'", "zz*", "MyD0bar", "anti-Foo", "K+x", "pi", "ChargeConj", "B0sig", "D*+_cc", "(x)", "n~"]
+UNKNOWN = ["ChargeConj(Foo)", "ChargeConj(K+x)", "Foo", "X_1(3872)x", "my~part", "a/b", "q'", "zz*", "MyD0bar", "anti-Foo", "K+x", "pi", "ChargeConj", "B0sig", "D*+_cc", "(x)", "n~"]
 
 
 def check_name(ctx, n, pdg, tag):
